@@ -52,6 +52,13 @@ class C12(PropertyCheck):
         "autoarray/dataset/preprocess.py:noise_map_with_signal_to_noise_limit_from",
         "autoarray/inversion/pixelization/image_mesh/overlay.py:Overlay.image_plane_mesh_grid_from",
         "autoarray/inversion/pixelization/image_mesh/hilbert.py:image_and_grid_from",
+        "autoarray/structures/grids/uniform_2d.py:Grid2D.grid_2d_radial_projected_from",
+        "autoarray/structures/grids/grid_2d_util.py:grid_scaled_2d_slim_radial_projected_from",
+        "autoarray/geometry/geometry_util.py:transform_grid_2d_to_reference_frame",
+        "autoarray/geometry/geometry_util.py:transform_grid_2d_from_reference_frame",
+        "autoarray/inversion/pixelization/mappers/mapper_util.py:pixel_weights_delaunay_from",
+        "autoarray/inversion/pixelization/mappers/mapper_util.py:pix_indexes_for_sub_slim_index_delaunay_from",
+        "autoarray/structures/mesh/triangulation_2d.py:Abstract2DMeshTriangulation.delaunay",
     ]
     trusted_extra = [
         "scipy.interpolate.griddata / Qhull inside image_mesh.Hilbert is not modelled (only the placement of its grids)",
@@ -423,7 +430,7 @@ class C12(PropertyCheck):
     MODEL_ENTRIES = ["from_mask", "all_false", "unmasked", "edge", "border", "blurring", "padded",
                      "over_sampled", "border_sub_grid", "mask_centre", "extent", "scaled_minmax",
                      "zoom_mask_unmasked", "zoomed_around_mask", "resized", "pixel_coordinates",
-                     "grid_pixel_indexes", "grid_pixel_centres", "grid_pixels"]
+                     "grid_pixel_indexes", "grid_pixel_centres", "grid_pixels", "radial_projected"]
 
     def model_requests(self, case, impl_obs):
         if "at_o" not in impl_obs:
@@ -458,13 +465,24 @@ class C12(PropertyCheck):
                 "zoomed_shape": e["zoomed_around_mask"]["value"]["shape"],
                 "points": [[q(Fraction(a) + sh[0]), q(Fraction(b) + sh[1])] for a, b in case["points"]],
             })
+        import math
+        phi = math.radians(float(case["angle"]))
+        for org in (o, [o[0] + d[0], o[1] + d[1]]):
+            reqs.append({"op": "c12.radial", "shape": [case["mask"]["h"], case["mask"]["w"]],
+                         "scales": case["scales"], "origin": [q(org[0]), q(org[1])],
+                         "centre": [q(org[0] + Fraction(1, 4)), q(org[1] - Fraction(1, 2))],
+                         "cos_sin": [q(math.cos(phi)), q(math.sin(phi))]})
         return reqs
 
     def model_obs(self, case, responses):
         for r in responses:
             if "err" in r:
                 return {"err": r["err"]}
-        return {"at_o": responses[0]["ok"], "at_od": responses[1]["ok"]}
+        out = {"at_o": responses[0]["ok"], "at_od": responses[1]["ok"]}
+        if len(responses) == 4:
+            out["at_o"]["radial_projected"] = responses[2]["ok"]
+            out["at_od"]["radial_projected"] = responses[3]["ok"]
+        return out
 
     def compare(self, case, impl_obs, model_obs, cmp):
         if "err" in model_obs:
@@ -503,8 +521,10 @@ class C12(PropertyCheck):
                              "C12.padded_grid_covariant", "C12.over_sampled_grid_covariant",
                              "C12.mask_centre_covariant", "C12.extent_covariant", "C12.zoom_mask_covariant",
                              "C12.zoomed_around_mask_covariant", "C12.resized_grid_covariant",
-                             "C12.pixel_indices_invariant", "C12.grid_pixel_indexes_invariant"],
-                "mapper": ["C12.overlay_mesh_covariant", "C12.rectangular_mapper_table_invariant"],
+                             "C12.pixel_indices_invariant", "C12.grid_pixel_indexes_invariant",
+                             "C12.radial_projected_covariant"],
+                "mapper": ["C12.overlay_mesh_covariant", "C12.rectangular_mapper_table_invariant",
+                           "C12.delaunay_mapper_tables_invariant"],
                 "dataset": ["C12.dataset_records_commute"]}.get(case["group"], ["C12.*"])
 
     def nontrivial(self, case, obs):
